@@ -51,6 +51,7 @@ class Part:
         self.errors = []      # harness errors (strings)
         self.functions = {}
         self.nontrivial = set()
+        self.records = []     # one record per CrossHair condition (kept in full)
 
     def merge(self, other):
         self.counts.update(other.counts)
@@ -62,6 +63,7 @@ class Part:
         self.errors.extend(other.errors)
         self.functions.update(other.functions)
         self.nontrivial |= other.nontrivial
+        self.records.extend(other.records)
 
     def case(self, harness, kind, inp, what):
         self.cases.append({'harness': harness, 'kind': kind, 'input': jsonable(inp), 'what': what})
@@ -275,6 +277,7 @@ class Run:
                 'bounds': self.bounds,
                 'outside_the_claim': self.outside,
                 'sections': self.sections,
+                'conditions': tot.records,
                 'candidates_total': len(cands),
                 'candidates_reproduced': n_repro,
                 'candidates_not_replayed_over_budget': skipped,
